@@ -250,8 +250,8 @@ def gen_cases(tier, seed):
             pl['steps'] = [s_ for s_ in pl['steps'] if s_['k'] != 'gosub']
         special.append({'src': 'text', 'text': c10.build(pl, random.Random(seed * 7919 + i + 1))[0], 'seed': i, 'scriptv': {}})
     for fi, fam in enumerate(FAMILIES):
-        out.append({'batch': [{'src': 'text', 'text': t, 'seed': i, 'scriptv': {}} for i, t in enumerate(fam)], 'configs': allc,
-                    'hseed': seed * 41 + fi})
+        out.append({'batch': [{'src': 'text', 'text': t, 'seed': i, 'scriptv': {}} for i, t in enumerate(fam)],
+                    'configs': allc if tier != 'quick' else [[0, False], [1, True], [2, False], [2, True]], 'hseed': seed * 41 + fi})
     SB = 4 if tier == 'quick' else 8
     for i in range(0, len(special), SB):
         out.append({'batch': special[i:i + SB], 'configs': allc, 'hseed': seed * 37 + i})
